@@ -173,6 +173,7 @@ func (l *LockingStreamer) checkIdle() {
 	if l.closed.Is() {
 		return
 	}
+	vhook.Point("stream.idle.check")
 	last := time.Unix(0, l.lastRead.Load())
 	idle := time.Since(last)
 	if idle < l.timeout {
